@@ -9,9 +9,10 @@ import Acra.Lemmas.MPEGTS
 import Acra.Lemmas.PMT
 import Acra.Lemmas.PES
 import Acra.Lemmas.CRCMpeg
+import Acra.Lemmas.CRC
 namespace Acra.Lemmas.MpegFlip
 open Acra.Py Acra.Model.MPEGTS Acra.Model.PMT Acra.Model.PES Acra.Gen.MPEGTS Acra.Gen.PMT
-open Acra.Lemmas.MPEGTS Acra.Lemmas.PMT Acra.Lemmas.CRCMpeg
+open Acra.Lemmas.MPEGTS Acra.Lemmas.PMT Acra.Lemmas.CRCMpeg Acra.Lemmas.PES
 
 /-! ### list surgery -/
 
@@ -188,25 +189,38 @@ theorem suffix4 (Y C left : Bytes) (n : Nat) (hC : C.length = 4) (hl : left.leng
   have hn : n = Y.length := by omega
   rw [h, hn]; exact List.drop_left' rfl
 
-/-- **the CRC comparison of `MPEGPacketPMT.unpack`, for an arbitrary section.**  The base-class decode
-    gave a payload `00 ‖ Hd ‖ X ‖ C ‖ R` (pointer field 0, 12 header bytes, anything, 4 bytes, anything)
-    whose `section_length` field (low 12 bits of header bytes 1–2) is `13 + |X|` and whose
-    `program_info_length` field (low 12 bits of header bytes 10–11) does not exceed `|X|`.
-    Then, whatever `Hd` and `X` contain — however the descriptor and stream loops parse `X`, even
-    when they mis-frame it — IF the decoder returns a value at all, that value is
-    "the big-endian word `C` equals CRC-32/MPEG-2 of `Hd ‖ X`". -/
-theorem PMT_unpack_section (t : PMT) (buf : Bytes) (p : Pkt) (Hd X C R : Bytes)
+/-- the value `MPEGPacketPMT.unpack` returns once the base class has decoded the packet, as a function
+    of the section alone: `pil` = program_info_length, `Hd` the 12 fixed bytes, `X` the descriptor and
+    stream bytes, `C` the four bytes at the position `section_length` designates for the CRC -/
+def sectionResult (pil : Nat) (Hd X C : Bytes) : R Bool :=
+  match (if 0 < pil then decDescs ((X.take pil).length + 1) (X.take pil) else .ok []) with
+  | .error e => .error e
+  | .ok _ =>
+    match decStreams ((X.drop pil ++ C).length + 1) (X.drop pil ++ C) with
+    | .error e => .error e
+    | .ok (_, left) =>
+      match structUnpack PMT_unpack_fmt0 left with
+      | .error e => .error e
+      | .ok [crc] => .ok (crc == crc32mpeg2 (Hd ++ X))
+      | .ok _ => .error .struct
+
+/-- **`MPEGPacketPMT.unpack` on an arbitrary section.**  The base-class decode gave a payload
+    `00 ‖ Hd ‖ X ‖ C ‖ R` (pointer field 0, 12 header bytes, anything, 4 bytes, anything) whose
+    `section_length` field (low 12 bits of header bytes 1–2) is `13 + |X|` and whose
+    `program_info_length` field (low 12 bits of header bytes 10–11) does not exceed `|X|`: the CRC is
+    computed over exactly `Hd ‖ X`, the descriptor loop runs on the first `pil` bytes of `X`, the
+    stream loop on the rest followed by `C`. -/
+theorem PMT_unpack_reduce (t : PMT) (buf : Bytes) (p : Pkt) (Hd X C R : Bytes)
     (hp : Pkt.unpack t.pkt buf = (p, .ok ()))
     (hpl : p.payload = (0 : UInt8) :: (Hd ++ (X ++ (C ++ R))))
     (hH : Hd.length = 12) (hC : C.length = 4)
     (hlen : ((Hd.getD 1 0).toNat * 256 + (Hd.getD 2 0).toNat) % 4096 = 13 + X.length)
-    (hpil : ((Hd.getD 10 0).toNat * 256 + (Hd.getD 11 0).toNat) % 4096 ≤ X.length)
-    (b : Bool) (hb : (PMT.unpack t buf).2 = .ok b) :
-    b = (beNat C == crc32mpeg2 (Hd ++ X)) := by
+    (hpil : ((Hd.getD 10 0).toNat * 256 + (Hd.getD 11 0).toNat) % 4096 ≤ X.length) :
+    (PMT.unpack t buf).2 =
+      sectionResult (((Hd.getD 10 0).toNat * 256 + (Hd.getD 11 0).toNat) % 4096) Hd X C := by
   obtain ⟨b0, b1, b2, b3, b4, b5, b6, b7, b8, b9, b10, b11, rfl⟩ := list12 Hd hH
-  simp only [List.getD_cons_succ, List.getD_cons_zero] at hlen hpil
+  simp only [List.getD_cons_succ, List.getD_cons_zero] at hlen hpil ⊢
   generalize hpilv : (b10.toNat * 256 + b11.toNat) % 4096 = pil at hpil
-  revert hb
   unfold PMT.unpack
   rw [hp]
   simp only [hpl]
@@ -230,24 +244,50 @@ theorem PMT_unpack_section (t : PMT) (buf : Bytes) (p : Pkt) (Hd X C R : Bytes)
     rw [this]
     exact slice_mid _ _ _ _ _ (by simp [PMT_FMT_POINTER, Fmt.size, codesSize, Code.size])
       (by simp [PMT_CRC_LEN, hH']; omega)
+  have h1 : (X.take pil).length = pil := by simp; omega
+  have h2 : (X.drop pil).length = X.length - pil := by simp
   have hsbuf : slice ((0 : UInt8) :: (Hd ++ (X ++ (C ++ R)))) (PMT_FMT.size + PMT_FMT_POINTER.size + 0 + pil) (X.length + 17)
       = X.drop pil ++ C := by
-    have hX : X = X.take pil ++ X.drop pil := (List.take_append_drop pil X).symm
     have : (0 : UInt8) :: (Hd ++ (X ++ (C ++ R))) = ([0] ++ Hd ++ X.take pil) ++ ((X.drop pil ++ C) ++ R) := by
       simp only [List.append_assoc, List.cons_append, List.nil_append]
       rw [← List.append_assoc (X.take pil), List.take_append_drop]
     rw [this]
-    have h1 : (X.take pil).length = pil := by simp; omega
-    have h2 : (X.drop pil).length = X.length - pil := by simp
     exact slice_mid _ _ _ _ _ (by simp [hH', h1, PMT_FMT, PMT_FMT_POINTER, Fmt.size, codesSize, Code.size]; omega)
       (by simp only [List.length_append, hH', h1, h2, hC, List.length_cons, List.length_nil]; omega)
-  simp only [hE, hcrcbuf, hsbuf]
-  intro hb
+  have hdbuf : slice ((0 : UInt8) :: (Hd ++ (X ++ (C ++ R)))) (PMT_FMT.size + PMT_FMT_POINTER.size + 0)
+      (PMT_FMT.size + PMT_FMT_POINTER.size + 0 + pil) = X.take pil := by
+    have : (0 : UInt8) :: (Hd ++ (X ++ (C ++ R))) = ([0] ++ Hd) ++ (X.take pil ++ (X.drop pil ++ (C ++ R))) := by
+      simp only [List.cons_append, List.nil_append]
+      rw [← List.append_assoc (X.take pil), List.take_append_drop]
+    rw [this]
+    exact slice_mid _ _ _ _ _ (by simp [hH', PMT_FMT, PMT_FMT_POINTER, Fmt.size, codesSize, Code.size])
+      (by simp [hH', h1, PMT_FMT, PMT_FMT_POINTER, Fmt.size, codesSize, Code.size])
+  have hne : ¬ (Hd ++ X).length = 0 := by simp [hH']
+  simp only [hE, hcrcbuf, hsbuf, hdbuf, hne, if_false, sectionResult]
+  split
+  · next heq => simp only [heq]
+  · next heq =>
+    simp only [heq]
+    split
+    · next heq2 => simp only [heq2]
+    · next heq2 =>
+      simp only [heq2]
+      split
+      · next heq3 => simp only [heq3]
+      · next heq3 => simp only [heq3]
+      · next hno heq3 =>
+        simp only [heq3]
+
+/-- **the CRC comparison of `MPEGPacketPMT.unpack`, for an arbitrary section**: whatever `Hd` and `X`
+    contain — however the descriptor and stream loops parse `X`, even when they mis-frame it — IF the
+    decoder returns a value at all, that value is "the big-endian word `C` equals CRC-32/MPEG-2 of
+    `Hd ‖ X`". -/
+theorem sectionResult_ok (pil : Nat) (Hd X C : Bytes) (hC : C.length = 4) (b : Bool)
+    (hb : sectionResult pil Hd X C = .ok b) : b = (beNat C == crc32mpeg2 (Hd ++ X)) := by
+  unfold sectionResult at hb
   split at hb
   · simp at hb
-  · have hne : ¬ (Hd ++ X).length = 0 := by simp [hH']
-    rw [if_neg hne] at hb
-    split at hb
+  · split at hb
     · simp at hb
     · rename_i ss left hdec
       obtain ⟨hl4, n, hn⟩ := decStreams_left _ _ _ _ hdec
@@ -261,10 +301,45 @@ theorem PMT_unpack_section (t : PMT) (buf : Bytes) (p : Pkt) (Hd X C R : Bytes)
         simp only [structUnpack, hl, if_true, PMT_unpack_fmt0, unpackCodes, Code.size, decInt, Except.ok.injEq,
           List.cons.injEq, and_true] at hcrc
         rw [List.take_of_length_le (by omega)] at hcrc
-        simp only at hb
         injection hb with hb
         rw [← hb, ← hcrc]
       · simp at hb
+
+theorem PMT_unpack_section (t : PMT) (buf : Bytes) (p : Pkt) (Hd X C R : Bytes)
+    (hp : Pkt.unpack t.pkt buf = (p, .ok ()))
+    (hpl : p.payload = (0 : UInt8) :: (Hd ++ (X ++ (C ++ R))))
+    (hH : Hd.length = 12) (hC : C.length = 4)
+    (hlen : ((Hd.getD 1 0).toNat * 256 + (Hd.getD 2 0).toNat) % 4096 = 13 + X.length)
+    (hpil : ((Hd.getD 10 0).toNat * 256 + (Hd.getD 11 0).toNat) % 4096 ≤ X.length)
+    (b : Bool) (hb : (PMT.unpack t buf).2 = .ok b) :
+    b = (beNat C == crc32mpeg2 (Hd ++ X)) := by
+  rw [PMT_unpack_reduce t buf p Hd X C R hp hpl hH hC hlen hpil] at hb
+  exact sectionResult_ok _ Hd X C hC b hb
+
+/-- when the descriptor and stream bytes are encodings of well-formed elements and
+    `program_info_length` is the length of the descriptor bytes, both loops succeed: the decoder
+    RETURNS, and the value is the CRC comparison -/
+theorem sectionResult_wf (Hd C : Bytes) (ds : List Desc) (ss : List Stream)
+    (hd : ∀ d ∈ ds, Desc_WF d) (hs : ∀ x ∈ ss, Stream_WF x) (hC : C.length = 4) :
+    sectionResult (ds.flatMap Desc_bytes).length Hd (ds.flatMap Desc_bytes ++ ss.flatMap Stream_bytes) C =
+      .ok (beNat C == crc32mpeg2 (Hd ++ (ds.flatMap Desc_bytes ++ ss.flatMap Stream_bytes))) := by
+  have htake : List.take (ds.flatMap Desc_bytes).length (ds.flatMap Desc_bytes ++ ss.flatMap Stream_bytes)
+      = ds.flatMap Desc_bytes := List.take_left' rfl
+  have hdrop : List.drop (ds.flatMap Desc_bytes).length (ds.flatMap Desc_bytes ++ ss.flatMap Stream_bytes)
+      = ss.flatMap Stream_bytes := List.drop_left' rfl
+  have hdescs : (if 0 < (ds.flatMap Desc_bytes).length then
+      decDescs ((ds.flatMap Desc_bytes).length + 1) (ds.flatMap Desc_bytes) else .ok []) = .ok (if 0 < (ds.flatMap Desc_bytes).length then ds else []) := by
+    by_cases hz : 0 < (ds.flatMap Desc_bytes).length
+    · rw [if_pos hz, if_pos hz]
+      exact decDescs_flatMap _ hd _ (by have := flatMap_desc_len ds; omega)
+    · rw [if_neg hz, if_neg hz]
+  have hstreams : decStreams ((ss.flatMap Stream_bytes ++ C).length + 1) (ss.flatMap Stream_bytes ++ C) = .ok (ss, C) :=
+    decStreams_flatMap _ hs _ hC _ (by have := flatMap_stream_len ss; simp only [List.length_append]; omega)
+  have hcrc : structUnpack PMT_unpack_fmt0 C = .ok [beNat C] := by
+    have hl : C.length = PMT_unpack_fmt0.size := by rw [hC]; rfl
+    simp only [structUnpack, hl, if_true, PMT_unpack_fmt0, unpackCodes, Code.size, decInt]
+    rw [List.take_of_length_le (by omega)]
+  simp only [sectionResult, htake, hdrop, hdescs, hstreams, hcrc]
 
 /-! ### one changed byte of a packed PMT packet -/
 
@@ -413,5 +488,165 @@ theorem PMT_flip_rejected (s t : PMT) (h : PMT_WF s) (hs : s.pkt.sync = 0x47)
         simp at this
         exact hne this.symm
       simpa using this
+
+/-- as `PMT_section_result`, for the descriptor and stream bytes `pack` emitted: the decoder returns -/
+theorem PMT_section_result_wf (s t : PMT) (h : PMT_WF s) (hs : s.pkt.sync = 0x47)
+    (hafc : s.pkt.adaption_ctrl = 1 ∨ s.pkt.adaption_ctrl = 3) (Hd C R : Bytes)
+    (hH : Hd.length = 12) (hC : C.length = 4)
+    (hlen : ((Hd.getD 1 0).toNat * 256 + (Hd.getD 2 0).toNat) % 4096 = 13 + (PMT_loops s).length)
+    (hpil : ((Hd.getD 10 0).toNat * 256 + (Hd.getD 11 0).toNat) % 4096 = (PMT_dbytes s).length) :
+    (PMT.unpack t ((Pkt_hdr (PMT_pkt s) ++ Pkt_af (PMT_pkt s) ++ [0]) ++ (Hd ++ (PMT_loops s ++ (C ++ R))))).2 =
+      .ok (beNat C == crc32mpeg2 (Hd ++ PMT_loops s)) := by
+  have hwp : Pkt_WF (PMT_pkt s) := h.1
+  have h2af : (PMT_pkt s).adaption_ctrl = 2 → (PMT_pkt s).adaption_field.isSome = true := by
+    intro c; have : s.pkt.adaption_ctrl = 2 := c; omega
+  have hafc' : (PMT_pkt s).adaption_ctrl = 1 ∨ (PMT_pkt s).adaption_ctrl = 3 := hafc
+  have hbuf : (Pkt_hdr (PMT_pkt s) ++ Pkt_af (PMT_pkt s) ++ [0]) ++ (Hd ++ (PMT_loops s ++ (C ++ R))) =
+      Pkt_hdr (PMT_pkt s) ++ (Pkt_af (PMT_pkt s) ++ ((0 : UInt8) :: (Hd ++ (PMT_loops s ++ (C ++ R))))) := by
+    simp [List.append_assoc]
+  rw [hbuf]
+  have hp := Pkt_unpack_tail (PMT_pkt s) t.pkt ((0 : UInt8) :: (Hd ++ (PMT_loops s ++ (C ++ R)))) hwp hs h2af
+  have hpl : (Pkt_decodedT (PMT_pkt s) ((0 : UInt8) :: (Hd ++ (PMT_loops s ++ (C ++ R))))).payload =
+      (0 : UInt8) :: (Hd ++ (PMT_loops s ++ (C ++ R))) := by
+    simp only [Pkt_decodedT, if_pos hafc']
+  have hdl : (PMT_dbytes s).length ≤ (PMT_loops s).length := by simp [PMT_loops]
+  rw [PMT_unpack_reduce t _ _ Hd (PMT_loops s) C R hp hpl hH hC hlen (by rw [hpil]; exact hdl), hpil]
+  exact sectionResult_wf Hd C s.descriptor_tags s.streams h.2.2.2.2.2.2.2.2.2.1 h.2.2.2.2.2.2.2.2.2.2.1 hC
+
+/-- when the changed byte lies in the 12 fixed bytes of the section or in the CRC, the two loops see
+    the bytes `pack` wrote: the decoder returns (no exception) -/
+theorem PMT_flip_returns (s t : PMT) (h : PMT_WF s) (hs : s.pkt.sync = 0x47)
+    (hafc : s.pkt.adaption_ctrl = 1 ∨ s.pkt.adaption_ctrl = 3)
+    (pre suf : Bytes) (a a' : UInt8) (hbuf : Pkt_bytes (PMT_pkt s) = pre ++ a :: suf)
+    (hlo : PMT_secOff s ≤ pre.length) (hhi : pre.length < PMT_secOff s + PMT_slen s + 3)
+    (hwhere : pre.length < PMT_secOff s + 12 ∨ PMT_secOff s + PMT_slen s - 1 ≤ pre.length)
+    (h2 : pre.length ≠ PMT_secOff s + 2) (h11 : pre.length ≠ PMT_secOff s + 11)
+    (h1 : pre.length = PMT_secOff s + 1 → a.toNat % 16 = a'.toNat % 16)
+    (h10 : pre.length = PMT_secOff s + 10 → a.toNat % 16 = a'.toNat % 16) :
+    ∃ b, (PMT.unpack t (pre ++ a' :: suf)).2 = .ok b := by
+  obtain ⟨hst1, hst2⟩ := PMT_hdr_steer s h
+  have hLL := PMT_loops_length s
+  have hHl := PMT_hdr_length s
+  have hCl : (PMT_crc4 s).length = 4 := by simp [PMT_crc4]
+  rw [PMT_bytes_parts s] at hbuf
+  have hFl : (Pkt_hdr (PMT_pkt s) ++ Pkt_af (PMT_pkt s) ++ [0]).length = PMT_secOff s := by
+    simp [PMT_secOff]; omega
+  obtain ⟨pre2, rfl, hsec⟩ := split_right _ _ pre suf a hbuf (by omega)
+  simp only [List.length_append, hFl] at hlo hhi h2 h11 h1 h10 hwhere
+  rw [List.append_assoc]
+  by_cases c1 : pre2.length < 12
+  · obtain ⟨suf1, hHd, rfl⟩ := split_left _ _ pre2 suf a hsec (by omega)
+    have hlen' : (pre2 ++ a' :: suf1).length = 12 := by
+      have := congrArg List.length hHd; simp at this ⊢; omega
+    have k1 : (((pre2 ++ a' :: suf1).getD 1 0).toNat * 256 + ((pre2 ++ a' :: suf1).getD 2 0).toNat) % 4096
+        = 13 + (PMT_loops s).length := by
+      rw [getD_changed_ne pre2 suf1 a a' 0 2 (by omega), ← hHd, hLL, ← hst1]
+      by_cases c : pre2.length = 1
+      · have e1 : (pre2 ++ a' :: suf1).getD 1 0 = a' := by rw [← c]; exact getD_changed_eq _ _ _ _
+        have e2 : (PMT_hdr s).getD 1 0 = a := by rw [hHd, ← c]; exact getD_changed_eq _ _ _ _
+        rw [e1, e2]; exact nib _ _ _ (h1 (by omega))
+      · rw [getD_changed_ne pre2 suf1 a a' 0 1 c, ← hHd]
+    have k2 : (((pre2 ++ a' :: suf1).getD 10 0).toNat * 256 + ((pre2 ++ a' :: suf1).getD 11 0).toNat) % 4096
+        = (PMT_dbytes s).length := by
+      rw [getD_changed_ne pre2 suf1 a a' 0 11 (by omega), ← hHd, ← hst2]
+      by_cases c : pre2.length = 10
+      · have e1 : (pre2 ++ a' :: suf1).getD 10 0 = a' := by rw [← c]; exact getD_changed_eq _ _ _ _
+        have e2 : (PMT_hdr s).getD 10 0 = a := by rw [hHd, ← c]; exact getD_changed_eq _ _ _ _
+        rw [e1, e2]; exact nib _ _ _ (h10 (by omega))
+      · rw [getD_changed_ne pre2 suf1 a a' 0 10 c, ← hHd]
+    have := PMT_section_result_wf s t h hs hafc (pre2 ++ a' :: suf1) (PMT_crc4 s) (Pkt_stuffing (PMT_pkt s)) hlen' hCl k1 k2
+    refine ⟨_, Eq.trans ?_ this⟩
+    simp [List.append_assoc]
+  · obtain ⟨pre3, rfl, hsec3⟩ := split_right _ _ pre2 suf a hsec (by omega)
+    simp only [List.length_append, hHl] at hlo hhi h2 h11 h1 h10 c1 hwhere
+    obtain ⟨pre4, rfl, hsec4⟩ := split_right _ _ pre3 suf a hsec3 (by omega)
+    simp only [List.length_append] at hhi
+    obtain ⟨suf1, hCC, rfl⟩ := split_left _ _ pre4 suf a hsec4 (by omega)
+    have hCl' : (pre4 ++ a' :: suf1).length = 4 := by
+      have := congrArg List.length hCC; simp at this ⊢; omega
+    have := PMT_section_result_wf s t h hs hafc (PMT_hdr s) (pre4 ++ a' :: suf1) (Pkt_stuffing (PMT_pkt s)) hHl hCl'
+      (by rw [hst1, hLL]) hst2
+    refine ⟨_, Eq.trans ?_ this⟩
+    simp [List.append_assoc]
+
+/-! ### single-bit flips as single-byte changes -/
+
+theorem flip_nibble_aux : ∀ n, n < 256 → ∀ j, j < 8 → 4 ≤ j →
+    (UInt8.ofNat n ^^^ ((1 : UInt8) <<< UInt8.ofNat j)).toNat % 16 = (UInt8.ofNat n).toNat % 16 := by
+  decide +kernel
+
+/-- flipping one of the four high bits of a byte keeps its low nibble -/
+theorem flip_nibble (b : UInt8) (j : Nat) (hj : j < 8) (h4 : 4 ≤ j) :
+    b.toNat % 16 = (b ^^^ ((1 : UInt8) <<< UInt8.ofNat j)).toNat % 16 := by
+  have := flip_nibble_aux b.toNat b.toNat_lt j hj h4
+  simpa using this.symm
+
+/-- `flipBit` changes exactly the byte `k / 8` -/
+theorem flipBit_split (buf : Bytes) (k : Nat) (h : k / 8 < buf.length) :
+    ∃ pre a suf, buf = pre ++ a :: suf ∧ pre.length = k / 8 ∧
+      Acra.Lemmas.CRC.flipBit buf k = pre ++ (a ^^^ ((1 : UInt8) <<< UInt8.ofNat (k % 8))) :: suf := by
+  refine ⟨buf.take (k / 8), buf[k / 8], buf.drop (k / 8 + 1), ?_, by simp; omega, ?_⟩
+  · simp
+  · unfold Acra.Lemmas.CRC.flipBit
+    rw [List.getD_eq_getElem?_getD, List.getElem?_eq_getElem h]
+    simp [List.set_eq_take_append_cons_drop, h]
+
+/-! ### PES / STANAG 4609: the same packet with other PES data of the same length -/
+
+def withData (q : PES) (D : Bytes) : PES := { q with pesdata := D }
+
+/-- everything in front of the PES data -/
+def PES_front (q : PES) : Bytes :=
+  Pkt_hdr (PES_pkt q) ++ (Pkt_af (PES_pkt q) ++ (PES_prefix q ++ PES_extBytes q))
+
+theorem PES_len_withData (q : PES) (D : Bytes) (hl : D.length = q.pesdata.length) :
+    PES_len (withData q D) = PES_len q := by
+  have e0 : PES_extBytes (withData q D) = PES_extBytes q := rfl
+  have ed : (withData q D).pesdata = D := rfl
+  unfold PES_len; rw [e0, ed, hl]
+
+theorem PES_prefix_withData (q : PES) (D : Bytes) (hl : D.length = q.pesdata.length) :
+    PES_prefix (withData q D) = PES_prefix q := by
+  unfold PES_prefix; rw [PES_len_withData q D hl]; rfl
+
+theorem PES_payload_withData (q : PES) (D : Bytes) (hl : D.length = q.pesdata.length) :
+    (PES_pkt (withData q D)).payload = PES_prefix q ++ (PES_extBytes q ++ D) := by
+  show PES_payload (withData q D) = _
+  unfold PES_payload; rw [PES_prefix_withData q D hl]; rfl
+
+theorem Pkt_used_withData (q : PES) (D : Bytes) (hl : D.length = q.pesdata.length) :
+    Pkt_used (PES_pkt (withData q D)) = Pkt_used (PES_pkt q) := by
+  have e4 : Pkt_af (PES_pkt (withData q D)) = Pkt_af (PES_pkt q) := rfl
+  have e6 : (PES_pkt q).payload = PES_prefix q ++ (PES_extBytes q ++ q.pesdata) := rfl
+  unfold Pkt_used
+  rw [e4, PES_payload_withData q D hl, e6]
+  simp [hl]
+
+theorem PES_bytes_withData (q : PES) (D : Bytes) (hl : D.length = q.pesdata.length) :
+    Pkt_bytes (PES_pkt (withData q D)) = PES_front q ++ (D ++ Pkt_stuffing (PES_pkt q)) := by
+  have e3 : Pkt_hdr (PES_pkt (withData q D)) = Pkt_hdr (PES_pkt q) := rfl
+  have e4 : Pkt_af (PES_pkt (withData q D)) = Pkt_af (PES_pkt q) := rfl
+  unfold Pkt_bytes PES_front Pkt_stuffing
+  rw [e3, e4, PES_payload_withData q D hl, Pkt_used_withData q D hl]
+  simp [List.append_assoc]
+
+theorem withData_self (q : PES) : withData q q.pesdata = q := rfl
+
+theorem looksLikeHeader_withData (q : PES) (D : Bytes) (hl : D.length = q.pesdata.length)
+    (hne : PES.ext q = none) (h1 : D.take 1 = q.pesdata.take 1) (h0 : 0 < D.length) :
+    looksLikeHeader (withData q D) ↔ looksLikeHeader q := by
+  have hx : PES_extBytes q = [] := by simp [PES_extBytes, PES_ext, hne]
+  have hx' : PES_extBytes (withData q D) = [] := hx
+  have ed : (withData q D).pesdata = D := rfl
+  have e8 : Pkt_stuffing (PES_pkt (withData q D)) = Pkt_stuffing (PES_pkt q) := by
+    unfold Pkt_stuffing; rw [Pkt_used_withData q D hl]
+  have t1 : List.take 1 (PES_tail (withData q D)) = List.take 1 D := by
+    unfold PES_tail
+    rw [hx', ed, List.nil_append, List.take_append_of_le_length (by omega)]
+  have t2 : List.take 1 (PES_tail q) = List.take 1 q.pesdata := by
+    unfold PES_tail
+    rw [hx, List.nil_append, List.take_append_of_le_length (by omega)]
+  unfold looksLikeHeader PES_firstByte
+  rw [t1, t2, h1, e8]
 
 end Acra.Lemmas.MpegFlip
